@@ -198,7 +198,35 @@ func nodeSites(b *Block, idx int, n ast.Node, info *types.Info) []*Site {
 				if id, ok := l.(*ast.Ident); ok && id.Name == "_" {
 					continue
 				}
-				store(l, rhs, x.Tok, x.End())
+				tok := x.Tok
+				// x += 1, x -= 1 and x = x + 1 are x++ / x-- spelled differently: rules that speak about an increment
+				// must not depend on the spelling
+				if len(x.Lhs) == len(x.Rhs) && rhs != nil {
+					isOne := func(e ast.Expr) bool {
+						tv, ok := info.Types[e]
+						return ok && tv.Value != nil && tv.Value.ExactString() == "1"
+					}
+					switch {
+					case tok == token.ADD_ASSIGN && isOne(rhs):
+						tok, rhs = token.INC, nil
+					case tok == token.SUB_ASSIGN && isOne(rhs):
+						tok, rhs = token.DEC, nil
+					case tok == token.ASSIGN:
+						if be, ok := ast.Unparen(rhs).(*ast.BinaryExpr); ok && (be.Op == token.ADD || be.Op == token.SUB) {
+							same := types.ExprString(ast.Unparen(be.X)) == types.ExprString(ast.Unparen(l))
+							if same && isOne(be.Y) {
+								if be.Op == token.ADD {
+									tok, rhs = token.INC, nil
+								} else {
+									tok, rhs = token.DEC, nil
+								}
+							} else if be.Op == token.ADD && isOne(be.X) && types.ExprString(ast.Unparen(be.Y)) == types.ExprString(ast.Unparen(l)) {
+								tok, rhs = token.INC, nil
+							}
+						}
+					}
+				}
+				store(l, rhs, tok, x.End())
 				if len(x.Lhs) != len(x.Rhs) {
 					out[len(out)-1].RHS = nil
 					out[len(out)-1].Tuple = rhs
